@@ -188,8 +188,10 @@ def h2(ctx: Ctx):
             if not raws:
                 continue
             ctx.instance(rule)
-            x = v if v[0] != "fstr" else v[1][0][1]
-            ok = any((not fv) and k[0] == "cmp" and k[1] == "In" and k[2] == ("const", ":") for k, fv in s.facts.items())
+            # on every path class: the host is absent (None is returned as it is) or known to be free of ':'
+            ok = all(truth(("cmp", "Is", raws[0], NONE), f) is True or
+                     any((not fv) and k[0] == "cmp" and k[1] == "In" and k[2] == ("const", ":") for k, fv in f.items())
+                     for f in alternatives(s.facts, raws[0]))
             ctx.ob(rule, fi.qual, f"return {show(v)[:60]}", ok, "host returned without brackets although it may contain ':'",
                    where(fi, node), sample="':' not in host")
 
